@@ -119,3 +119,44 @@ fn c06_k7_tick_expiry() {
     kani::cover!(!ends, "still active");
     core::mem::forget(l);
 }
+
+// @harness name=c10_k2_history_tick prop=C10 tier=quick timeout=900
+// @encodes History::tick_hist, History::push_front, History::iter_hevents (the key / input ages that key-timing and key-history switch conditions read)
+// @bounds a history of 3 recorded keys with symbolic ages (full u16)
+// @assumes none
+// @spec every tick ages every recorded event by exactly one, saturating at 65535 (an old key never looks recent again); order and identity of the recorded events are unchanged; a new event enters with age 0 as the most recent
+#[kani::proof]
+#[kani::unwind(10)]
+fn c10_k2_history_tick() {
+    let mut h: History<KeyCode> = History::new();
+    h.push_front(KeyCode::A);
+    h.push_front(KeyCode::B);
+    h.push_front(KeyCode::C);
+    let ages: [u16; 3] = [kani::any(), kani::any(), kani::any()];
+    let mut i = 0;
+    while i < 3 {
+        h.ticks_since_occurrences[i] = ages[i];
+        i += 1;
+    }
+    h.tick_hist();
+    let want = [KeyCode::C, KeyCode::B, KeyCode::A];
+    {
+        let mut it = h.iter_hevents();
+        i = 0;
+        while i < 3 {
+            match it.next() {
+                Some(e) => {
+                    assert!(e.event == want[i], "most recent first");
+                    assert!(e.ticks_since_occurrence == ages[i].saturating_add(1), "ages grow by one per tick and saturate");
+                }
+                None => assert!(false),
+            }
+            i += 1;
+        }
+        assert!(it.next().is_none());
+    }
+    h.push_front(KeyCode::D);
+    let first = h.iter_hevents().next();
+    assert!(matches!(first, Some(e) if e.event == KeyCode::D && e.ticks_since_occurrence == 0));
+    kani::cover!(ages[0] == u16::MAX, "saturated age");
+}
